@@ -380,7 +380,25 @@ pub fn p_items(items: &[BodyItem], prog: &Program, env: &mut VarEnv, in_macro: b
             let mut alts = vec![];
             for d in ds {
                let mut e = env.clone();
-               alts.push(p_items(d, prog, &mut e, in_macro));
+               // a disjunct that ends in an expression (`if c`, `let x = e`, `for x in e`, attached conditions) would
+               // swallow the following `|` as a binary operator: such a last item is written `(item)`, a
+               // one-disjunct disjunction, as in the repository's own tests
+               let ends_in_expr = match d.last() {
+                  Some(BodyItem::Cond(_)) | Some(BodyItem::For { .. }) => true,
+                  Some(BodyItem::Clause { conds, .. }) => !conds.is_empty(),
+                  _ => false,
+               };
+               if ends_in_expr {
+                  let (init, last) = d.split_at(d.len() - 1);
+                  let mut parts = vec![];
+                  if !init.is_empty() {
+                     parts.push(p_items(init, prog, &mut e, in_macro));
+                  }
+                  parts.push(format!("({})", p_items(last, prog, &mut e, in_macro)));
+                  alts.push(parts.join(", "));
+               } else {
+                  alts.push(p_items(d, prog, &mut e, in_macro));
+               }
             }
             format!("({})", alts.join(" | "))
          },
@@ -401,6 +419,7 @@ pub fn p_heads(heads: &[HeadItem], env: &VarEnv) -> String {
                .iter()
                .map(|e| match e {
                   Expr::Var(x) if x.starts_with("$$") => x[1..].to_string(),
+                  Expr::Var(x) if x.starts_with('$') => x.clone(),
                   // a by-value variable of a non-Copy type would be moved out of the rule closure
                   Expr::Var(x) if env.get(x).map_or(false, |i| (!i.is_ref || i.unknown_ref) && !i.ty.is_copy()) =>
                      format!("{x}.clone()"),
@@ -424,7 +443,9 @@ pub fn p_rule(rule: &Rule, prog: &Program) -> String {
    if rule.body.is_empty() { format!("{heads};") } else { format!("{heads} <-- {body};") }
 }
 
-pub fn p_decl(r: &RelDecl) -> String {
+pub fn p_decl(r: &RelDecl) -> String { p_decl_init(r, None) }
+
+pub fn p_decl_init(r: &RelDecl, init: Option<&str>) -> String {
    let kw = if r.is_lattice { "lattice" } else { "relation" };
    let cols = r.cols.iter().map(|t| t.rust()).collect::<Vec<_>>().join(", ");
    let ds = match r.ds {
@@ -433,7 +454,10 @@ pub fn p_decl(r: &RelDecl) -> String {
       Some(Ds::TrRel) => "#[ds(::ascent_byods_rels::trrel)] ".into(),
       Some(Ds::TrRelUf) => "#[ds(::ascent_byods_rels::trrel_uf)] ".into(),
    };
-   format!("{ds}{kw} {}({cols});", r.name)
+   match init {
+      None => format!("{ds}{kw} {}({cols});", r.name),
+      Some(e) => format!("{ds}{kw} {}({cols}) = {e};", r.name),
+   }
 }
 
 pub fn p_macro_def(m: &MacroDef, prog: &Program) -> String {
@@ -445,11 +469,18 @@ pub fn p_macro_def(m: &MacroDef, prog: &Program) -> String {
       .join(", ");
    let body = if m.is_head {
       // head macros only mention parameters
-      p_heads(&m.head, &VarEnv::new())
+      let mut env = VarEnv::new();
+      for p in &m.params {
+         let key = if p.is_ident { format!("${}", p.name) } else { format!("$${}", p.name) };
+         env.insert(key, VarInfo { ty: p.ty, is_ref: false, unknown_ref: true });
+      }
+      p_heads(&m.head, &env)
    } else {
       let mut env = VarEnv::new();
-      // ident parameters used as variables inside the body have unknown type at definition time; the
-      // printer only needs types for literals / projections, which the generator avoids on parameters.
+      for p in &m.params {
+         let key = if p.is_ident { format!("${}", p.name) } else { format!("$${}", p.name) };
+         env.insert(key, VarInfo { ty: p.ty, is_ref: false, unknown_ref: true });
+      }
       p_items(&m.body, prog, &mut env, true)
    };
    format!("macro {}({params}) {{ {body} }}", m.name)
@@ -499,9 +530,32 @@ impl PrintOpts {
 }
 
 /// The items of the program body (declarations, macro definitions, rules) as separate strings.
-pub fn program_items(prog: &Program) -> Vec<String> {
+pub fn program_items(prog: &Program) -> Vec<String> { program_items_opts(prog, None) }
+
+/// `opts`: packaging (initialised relations, decoy re-declarations)
+pub fn program_items_opts(prog: &Program, opts: Option<&PrintOpts>) -> Vec<String> {
    let mut items = vec![];
    for r in &prog.rels {
+      if let Some(o) = opts {
+         let init_expr = |key: &str| -> String {
+            if o.kind.is_run() {
+               // captured local
+               format!("::core::iter::FromIterator::from_iter({key}.clone())")
+            } else {
+               format!("::vglue::pending_rows({key:?})")
+            }
+         };
+         if o.redeclare.contains(&r.name) {
+            // an earlier declaration of the same relation with another initialiser: the later one must win
+            let key = if o.kind.is_run() { format!("decoy_{}", r.name) } else { format!("{}#decoy", r.name) };
+            items.push(p_decl_init(r, Some(&init_expr(&key))));
+         }
+         if o.init_rels.contains(&r.name) {
+            let key = if o.kind.is_run() { format!("in_{}", r.name) } else { r.name.clone() };
+            items.push(p_decl_init(r, Some(&init_expr(&key))));
+            continue;
+         }
+      }
       items.push(p_decl(r));
    }
    for m in &prog.macros {
@@ -541,7 +595,7 @@ pub fn print_module(mod_name: &str, prog: &Program, opts: &PrintOpts, ast_json: 
    let par = opts.kind.is_par();
    writeln!(s, "pub mod {mod_name} {{").unwrap();
    writeln!(s, "   #![allow(warnings)]").unwrap();
-   let items = program_items(prog);
+   let items = program_items_opts(prog, Some(opts));
    let attrs: String = opts.attrs.iter().map(|a| format!("      #![{a}]\n")).collect();
    let mac = opts.kind.macro_name();
 
@@ -581,6 +635,39 @@ pub fn print_module(mod_name: &str, prog: &Program, opts: &PrintOpts, ast_json: 
       writeln!(s, "      {struct_sig}").unwrap();
       write!(s, "{body_text}").unwrap();
       writeln!(s, "   }}").unwrap();
+      if !opts.init_rels.is_empty() {
+         // deferred construction: the initialisers run inside `P::default()`, so the rows must be known by then
+         writeln!(s, "   pub struct G {{ pub pending: ::vglue::Db, pub p: Option<P> }}").unwrap();
+         writeln!(s, "   impl ::vglue::Prog for G {{").unwrap();
+         writeln!(s, "      fn load(&mut self, rel: &str, rows: &[::vglue::Row]) {{").unwrap();
+         writeln!(s, "         self.pending.rels.entry(rel.to_string()).or_default().extend(rows.iter().cloned());").unwrap();
+         writeln!(s, "      }}").unwrap();
+         writeln!(s, "      fn run(&mut self) {{").unwrap();
+         writeln!(s, "         let init: &[&str] = &[{}];", opts.init_rels.iter().map(|n| format!("{n:?}")).collect::<Vec<_>>().join(", ")).unwrap();
+         writeln!(s, "         ::vglue::set_pending(&self.pending, init);").unwrap();
+         writeln!(s, "         let mut p = P::default();").unwrap();
+         writeln!(s, "         ::vglue::clear_pending();").unwrap();
+         writeln!(s, "         for (rel, rows) in &self.pending.rels {{").unwrap();
+         writeln!(s, "            if init.contains(&rel.as_str()) {{ continue; }}").unwrap();
+         writeln!(s, "            match rel.as_str() {{").unwrap();
+         for r in &rels {
+            let tup = tuple_of(&r.cols, |i, _| format!("::vglue::cv(&r[{i}])"));
+            let val = if par && r.is_lattice { format!("::std::sync::RwLock::new({tup})") } else { tup };
+            writeln!(s, "               {:?} => for r in rows {{ p.{}.push({val}); }},", r.name, r.name).unwrap();
+         }
+         writeln!(s, "               other => panic!(\"load: unknown relation {{}}\", other),").unwrap();
+         writeln!(s, "            }}").unwrap();
+         writeln!(s, "         }}").unwrap();
+         writeln!(s, "         p.run();").unwrap();
+         writeln!(s, "         self.p = Some(p);").unwrap();
+         writeln!(s, "      }}").unwrap();
+         writeln!(s, "      fn dump(&self) -> ::vglue::Db {{ let p = self.p.as_ref().expect(\"run first\"); {} }}", dump_body(&rels, par, "p")).unwrap();
+         writeln!(s, "      fn scc_summary(&self) -> String {{ self.p.as_ref().map(|p| p.scc_times_summary()).unwrap_or_default() }}").unwrap();
+         writeln!(s, "      fn sizes_summary(&self) -> String {{ String::new() }}").unwrap();
+         writeln!(s, "   }}").unwrap();
+         writeln!(s, "   pub fn new() -> Box<dyn ::vglue::Prog> {{ Box::new(G {{ pending: Default::default(), p: None }}) }}").unwrap();
+         writeln!(s, "   pub fn summary() -> &'static str {{ P::summary() }}").unwrap();
+      } else {
       // glue
       writeln!(s, "   pub struct G(pub P);").unwrap();
       writeln!(s, "   impl ::vglue::Prog for G {{").unwrap();
@@ -610,6 +697,7 @@ pub fn print_module(mod_name: &str, prog: &Program, opts: &PrintOpts, ast_json: 
       writeln!(s, "   }}").unwrap();
       writeln!(s, "   pub fn new() -> Box<dyn ::vglue::Prog> {{ Box::new(G(P::default())) }}").unwrap();
       writeln!(s, "   pub fn summary() -> &'static str {{ P::summary() }}").unwrap();
+      }
    } else {
       // ascent_run!: inputs are captured locals. Every input relation `r` is fed by `r(..) <-- for t in in_r.iter()`
       // or initialised by `relation r(..) = in_r;` (opts.init_rels).
@@ -628,6 +716,13 @@ pub fn print_module(mod_name: &str, prog: &Program, opts: &PrintOpts, ast_json: 
             n = r.name
          )
          .unwrap();
+      }
+      for r in &rels {
+         if opts.redeclare.contains(&r.name) {
+            let ty = tuple_of(&r.cols, |_, t| t.rust().to_string());
+            let tup = tuple_of(&r.cols, |i, _| format!("::vglue::cv(&r[{i}])"));
+            writeln!(s, "         let decoy_{n}: Vec<{ty}> = ::vglue::decoy_rows_for({n:?}, &self.input).iter().map(|r| {tup}).collect();", n = r.name).unwrap();
+         }
       }
       writeln!(s, "         let res = ::ascent::{mac}! {{").unwrap();
       write!(s, "{attrs}").unwrap();
@@ -706,7 +801,7 @@ pub fn program_text(prog: &Program, opts: &PrintOpts) -> String {
    for a in &opts.attrs {
       writeln!(s, "   #![{a}]").unwrap();
    }
-   for it in program_items(prog) {
+   for it in program_items_opts(prog, Some(opts)) {
       writeln!(s, "   {it}").unwrap();
    }
    writeln!(s, "}}").unwrap();
